@@ -270,3 +270,5 @@ def run(ctx):
     sig.text_mode_selection(ctx, P)
     # the v6 salt is fed to the raw digest, never through the canonicalising wrapper (a salt octet 0x0A is not a line ending)
     sig.salt_fed_at_every_hasher(ctx, P)
+    from rules import c01 as _c01
+    _c01.builder_conversions_keep_settings(ctx, P)        # a text-mode request survives the builder's type-state conversions
